@@ -154,4 +154,81 @@ def d4_heap(facts, rep):
             break
         rep.ob('D4', 'K4', fn, 'before the handler returns, leftover pushed elements are merged into the heap', ok and ok2,
                'the next batch can pop from a vector that is not a heap')
-    rep.floor('D4', 1, 'heapify')
+    d4_sift_bound(facts, rep)
+    rep.floor('D4', 3, 'heapify + sift-down bounds')
+
+
+def d4_sift_bound(facts, rep):
+    """data[0, mark) is a heap, data[mark, size) are pushed elements that are not merged yet.  reheap() re-inserts the last
+    element by sifting down from the root: every element it looks at as a child must lie inside the heap part, i.e. every
+    read data[E] inside the sift-down loop is dominated by an edge `E < mark` (for a plain index variable: a comparison of
+    that variable, or of the variable it was copied from, against mark).  A bound taken from data.size() lets the
+    sift-down walk into the unmerged tail and move one of its elements below a smaller parent."""
+    from engine.rules import expr_key
+    for fn in facts.get(CPQ + 'reheap'):
+        defs = Defs(fn)
+
+        def is_mark(x):
+            n = fn.n(fn.strip(x))
+            if n.get('k') == 'member' and n.get('n') == 'mark':
+                return True
+            if n.get('k') == 'var' and 'glob' not in n:
+                vals = [val for (v, dn), val in defs.value_of.items() if v == n['v']]
+                return bool(vals) and all(val is not None and is_mark(val) for val in vals)
+            return False
+
+        def var_of(x):
+            n = fn.n(fn.strip(x))
+            return n['v'] if n.get('k') == 'var' else None
+        # copy classes of index variables: target = child
+        cls = {}
+        for (v, dn), val in defs.value_of.items():
+            if val is not None and var_of(val) is not None:
+                cls.setdefault(v, set()).add(var_of(val))
+        changed = True
+        while changed:       # transitive: cur_pos = target, target = child
+            changed = False
+            for v in list(cls):
+                for w in list(cls[v]):
+                    extra = cls.get(w, set()) - cls[v] - {v}
+                    if extra:
+                        cls[v] |= extra
+                        changed = True
+        mark_edges = []      # (edge, key of the bounded expression)
+
+        def bounded(a, truth):
+            n = fn.n(fn.strip(a))
+            if n.get('k') == 'binop' and n['op'] == '<' and truth and is_mark(n['r']):
+                mark_edges.append(expr_key(fn, n['l']))
+                return True
+            return False
+        all_edges = edges_where(fn, bounded)
+        # accesses data[E] inside the loop (they can reach themselves again)
+        nacc = 0
+        for pos, s, node, d in calls(fn):
+            if node.get('op') != '[]' or last_member(fn, node.get('obj', -1)) != 'data' or not node.get('a'):
+                continue
+            reached, ex, par = fn.walk(pos)
+            if pos not in reached:
+                continue            # not in a loop: the final placement data[cur_pos] = data.back()
+            E = node['a'][0]
+            ek = expr_key(fn, E)
+            ev = var_of(E)
+
+            def edge_for(a, truth, ek=ek, ev=ev):
+                n = fn.n(fn.strip(a))
+                if not (n.get('k') == 'binop' and n['op'] == '<' and truth and is_mark(n['r'])):
+                    return False
+                lk = expr_key(fn, n['l'])
+                if lk == ek:
+                    return True
+                lv = var_of(n['l'])
+                return ev is not None and lv is not None and (lv == ev or lv in cls.get(ev, ()) or ev in cls.get(lv, ()))
+            ok, wit = dominated_by_edges(fn, pos, edges_where(fn, edge_for))
+            nacc += 1
+            rep.ob('D4', 'K4', fn, 'the sift-down reads data[...] at line %s only below mark' % node['ln'], ok,
+                   'the index is not bounded by mark on every path: the sift-down can pick an element of the unmerged tail as a '
+                   'child and move it into the heap under a smaller parent; a later try_pop then returns a non-maximal element (' + wit + ')',
+                   ln=node['ln'], key_extra='%s' % node['ln'])
+        if nacc < 3:
+            raise AnalysisBroken('reheap: only %d data[] reads found inside the sift-down loop' % nacc)
